@@ -512,6 +512,29 @@ func (d *dt1) bodyEffects(f *ssa.Function, blocks map[*ssa.BasicBlock]bool, what
 				if ap, ok := x.Value.(*ssa.Call); ok && calleeFullName(&ap.Call) == "builtin append" {
 					mapCollectors = append(mapCollectors, x.Map)
 				}
+				// `out[key] = v` is commutative as long as distinct iterations write distinct keys. A key that is the
+				// iteration's key on one path and something looked up or computed on another (renaming some keys on
+				// the way) lets two iterations write the same entry: the later one wins, and which one is later is the
+				// map's iteration order
+				if ph, ok := strip(x.Key).(*ssa.Phi); ok && blocks[ph.Block()] {
+					if _, isConst := x.Value.(*ssa.Const); !isConst {
+						distinct := map[ssa.Value]bool{}
+						fromLoop := false
+						for _, e := range ph.Edges {
+							e = strip(e)
+							if e == ssa.Value(ph) {
+								continue
+							}
+							distinct[e] = true
+							if ein, ok := e.(ssa.Instruction); ok && blocks[ein.Block()] {
+								fromLoop = true
+							}
+						}
+						if len(distinct) > 1 && fromLoop {
+							problems = append(problems, fmt.Sprintf("%s writes map entries under a key that is rewritten on some paths at %s: two iterations can write the same entry and the later one wins", what, c.Pos(x.Pos())))
+						}
+					}
+				}
 			case *ssa.Store:
 				if cell := cellOf(x.Addr); cell != nil {
 					// captured/escaping variable written in the loop
